@@ -30,7 +30,7 @@ pub struct Script {
     guard: u32,
 }
 
-fn base_opts() -> EditorOptions {
+pub fn base_opts() -> EditorOptions {
     EditorOptions {
         easy_symbol_input: false,
         esc_clear_all_buffer: false,
